@@ -51,6 +51,14 @@ Check C15_wordmap_invariant : forall is_lower lower ws,
   wm_wf is_lower lower (mut_extend is_lower lower [] ws).
 Print Assumptions C15_wordmap_invariant.
 
+(* (fix ebb53b3) every word of a dictionary is an exact word of it — also one stored with typographic apostrophes *)
+Theorem C15_exact_own_word : forall is_lower lower m k e,
+  wm_wf is_lower lower m -> In (k, e) m -> mut_exact is_lower lower m (e_canon e) = true.
+Proof. exact mut_exact_own_word. Qed.
+Check C15_exact_own_word : forall is_lower lower m k e,
+  wm_wf is_lower lower m -> In (k, e) m -> mut_exact is_lower lower m (e_canon e) = true.
+Print Assumptions C15_exact_own_word.
+
 (* FstDictionary::from(MutableDictionary) — the only way the crate builds one — answers membership,
    exact-capitalisation, metadata, canonical-spelling and by-id queries exactly like the
    MutableDictionary it was built from, for every query string *)
